@@ -12,8 +12,22 @@ with them.  `Proofs/Refill.lean` shows that the abstract model is what every sch
 Only `readByteRaw` and `refill` (grep over the package).  Everything else in `scanner.go` and
 `eexec.go` (`readByte`, `readByteEexec`, `Next`, `Peek`, `PeekN`, `SkipN`, `BeginEexec`, …) goes
 through `readByteRaw` and, in addition, manipulates `peek`/`regurgitate` and *reads the field
-`s.err` directly* (`ScanToken` case '>', `BeginEexec`, `executeScanner` with `CheckStart`).
-These accesses are the operations `Op` below.
+`s.err` directly* (`ScanToken` case '>', `BeginEexec`, `executeScanner` with `CheckStart`; no
+other place).  These accesses are the operations `Op` below.
+
+### `srcErr` and `err` (fix f155a2c)
+`refill` remembers the first error of `src.Read` in `srcErr` — possibly while bytes delivered
+together with it are still unread — and `readByteRaw` copies it to the visible field `err` at
+the moment it returns it.  Before that fix there was one field: `refill` stored the error in
+`s.err` at once, and a reader returning `(n > 0, err)` made `s.err` visible early.  Witness of
+the OLD behaviour (confirmed on the Go code before 3164b19/f155a2c): the program `1 >x 2`
+delivered as `(6 bytes, io.EOF)` in one call made `Execute` return nil with stack `[1]`, delivered
+as `(6 bytes, nil), (0, io.EOF)` it returned `syntaxerror`; in the terms of this file the
+operations `[read, getErr]` observed `[byte 49, errField (some eof)]` on
+`{ chunks := [⟨[49, 32, 62, 120, 32, 50], some .eof⟩] }` but `[byte 49, errField none]` on
+`{ chunks := [⟨[49, 32, 62, 120, 32, 50], none⟩, ⟨[], some .eof⟩] }`.  With the split the visible
+`err` is exactly the `err` field of the abstract scanner under every schedule
+(`Proofs.Refill.step_sim`).
 
 ### The reader (`io.Reader` contract)
 A `Read(p)` with `len(p) = k` returns `0 ≤ n ≤ k` bytes and an error or nil:
@@ -83,16 +97,6 @@ def deliveredL : List Chunk → RdErr → List UInt8 × RdErr
 
 def Rd.delivered (r : Rd) : List UInt8 × RdErr := deliveredL r.chunks r.fin
 
-/-- "error after the data": the first error comes with zero bytes -/
-def cleanL : List Chunk → Bool
-  | [] => true
-  | c :: rest =>
-    match c.err with
-    | some _ => c.data.isEmpty
-    | none => cleanL rest
-
-def Rd.clean (r : Rd) : Bool := cleanL r.chunks
-
 /-! ### The buffer -/
 
 /-- the fields of `scanner` used by `refill`/`readByteRaw`; `buf.length` is the capacity
@@ -101,8 +105,10 @@ structure Buf where
   buf : List UInt8
   pos : Nat := 0
   used : Nat := 0
-  /-- sticky `s.err`: the first error returned by `src.Read` -/
-  err : Option RdErr := none
+  /-- `s.srcErr`: the first error returned by `src.Read` (sticky) -/
+  srcErr : Option RdErr := none
+  /-- `s.err`: `srcErr` from the moment `readByteRaw` has returned it -/
+  err : Option Err := none
   peek : List UInt8 := []
   regurgitate : Bool := false
   /-- `s.src` -/
@@ -118,12 +124,12 @@ def newScanner (rd : Rd) : Buf := newBuf 512 rd
 /-- `refill`: the returned error (`none` = nil) and the new state.
 
 ```go
-if s.err != nil { return s.err }
+if s.srcErr != nil { return s.srcErr }
 s.used = copy(s.buf, s.buf[s.pos:s.used])
 s.pos = 0
 n, err := s.src.Read(s.buf[s.used:])
 s.used += n
-if err != nil { s.err = err }
+if err != nil { s.srcErr = err }
 if n > 0 { err = nil }
 return err
 ```
@@ -131,7 +137,7 @@ return err
 rest of the buffer keeps its old contents.  The slice expression panics unless
 `pos ≤ used ≤ cap`. -/
 def refill (b : Buf) : Option Err × Buf :=
-  match b.err with
+  match b.srcErr with
   | some e => (some e.toErr, b)
   | none =>
     if b.pos > b.used ∨ b.used > b.buf.length then (some (.panic "slice bounds out of range"), b)
@@ -140,10 +146,11 @@ def refill (b : Buf) : Option Err × Buf :=
       let buf1 := (b.buf.drop b.pos).take m ++ b.buf.drop m
       let (d, e, rd') := b.rd.read (buf1.length - m)
       let buf2 := buf1.take m ++ d ++ buf1.drop (m + d.length)
-      let b' : Buf := { b with buf := buf2, pos := 0, used := m + d.length, err := e, rd := rd' }
+      let b' : Buf := { b with buf := buf2, pos := 0, used := m + d.length, srcErr := e, rd := rd' }
       (if d.length > 0 then none else e.map RdErr.toErr, b')
 
-/-- the loop `for s.pos >= s.used { err := s.refill(); if err != nil { return 0, err } }`.
+/-- the loop
+`for s.pos >= s.used { err := s.refill(); if err != nil { s.err = err; return 0, err } }`.
 Every turn either ends the loop or consumes a zero-progress chunk, so `chunks.length + 2`
 turns always suffice (`Proofs.Refill.fillLoop_spec`: the fuel error never occurs). -/
 def fillLoop : Nat → Buf → Option Err × Buf
@@ -151,7 +158,7 @@ def fillLoop : Nat → Buf → Option Err × Buf
   | fuel + 1, b =>
     if b.pos ≥ b.used then
       match refill b with
-      | (some e, b') => (some e, b')
+      | (some e, b') => (some e, { b' with err := some e })
       | (none, b') => fillLoop fuel b'
     else (none, b)
 
@@ -197,26 +204,26 @@ def obsOf : Except Err UInt8 → Obs
 /-- one operation on the buffered scanner -/
 def stepB (op : Op) (b : Buf) : Obs × Buf :=
   match op with
-  | .read => let (r, b') := readByteRaw b; (obsOf r, b')
-  | .getErr => (.errField (b.err.map RdErr.toErr), b)
+  | .read => (obsOf (readByteRaw b).1, (readByteRaw b).2)
+  | .getErr => (.errField b.err, b)
   | .setRegurgitate v => (.done, { b with regurgitate := v })
   | .setPeek p => (.done, { b with peek := p })
 
 /-- the same operation on the abstract scanner of `Model/Scanner.lean` -/
 def stepA (op : Op) (a : Scanner) : Obs × Scanner :=
   match op with
-  | .read => let (r, a') := Scan.readByteRaw a; (obsOf r, a')
+  | .read => (obsOf (Scan.readByteRaw a).1, (Scan.readByteRaw a).2)
   | .getErr => (.errField a.err, a)
   | .setRegurgitate v => (.done, { a with regurgitate := v })
   | .setPeek p => (.done, { a with peek := p })
 
 def runB : List Op → Buf → List Obs
   | [], _ => []
-  | op :: ops, b => let (o, b') := stepB op b; o :: runB ops b'
+  | op :: ops, b => (stepB op b).1 :: runB ops (stepB op b).2
 
 def runA : List Op → Scanner → List Obs
   | [], _ => []
-  | op :: ops, a => let (o, a') := stepA op a; o :: runA ops a'
+  | op :: ops, a => (stepA op a).1 :: runA ops (stepA op a).2
 
 /-- an adaptive client: the next operation is a function of the observations so far
 (`none` = stop) -/
@@ -227,14 +234,14 @@ def driveB (c : Client) : Nat → List Obs → Buf → List Obs
   | n + 1, h, b =>
     match c h with
     | none => h
-    | some op => let (o, b') := stepB op b; driveB c n (h ++ [o]) b'
+    | some op => driveB c n (h ++ [(stepB op b).1]) (stepB op b).2
 
 def driveA (c : Client) : Nat → List Obs → Scanner → List Obs
   | 0, h, _ => h
   | n + 1, h, a =>
     match c h with
     | none => h
-    | some op => let (o, a') := stepA op a; driveA c n (h ++ [o]) a'
+    | some op => driveA c n (h ++ [(stepA op a).1]) (stepA op a).2
 
 /-- the abstract scanner for a byte string and a final error -/
 def absInit (bs : List UInt8) (e : RdErr) : Scanner := { src := bs, fault := e.toFault }
